@@ -64,6 +64,12 @@ def run(ctx: Ctx):
                        ("Message.from_bytes", MSG_OK), ("MessageHeader.__str__", set()),
                        ("Message.__str__", set())):
         entries.append((model.func("message._base", q), allowed, q))
+    # the recursive AVP renderer behind message.dump(): given decoded AVPs it renders every one of
+    # them, descending into groups.  (dump() itself first asks a typed message for its AVP list,
+    # which re-encodes the attributes - an encode question, not part of this property.)
+    init_mod = model.module("message")
+    if "_dump_avps" in init_mod.funcs:
+        entries.append((init_mod.funcs["_dump_avps"], set(), "message._dump_avps"))
     # str() of every Message subclass that overrides it
     mcls = base_mod.classes["Message"]
     for c in model.subclasses(mcls):
